@@ -190,6 +190,38 @@ func (eng *Engine) indexFuncs() {
 		k := funcKey(f)
 		eng.funcs[k] = append(eng.funcs[k], f)
 	}
+	// methods of generic types are not found by reachability: add them from the type declarations
+	have := map[*ssa.Function]bool{}
+	for _, l := range eng.funcs {
+		for _, f := range l {
+			have[f] = true
+		}
+	}
+	for path, tp := range eng.typesPkgs {
+		if !strings.HasPrefix(path, modPath) {
+			continue
+		}
+		sc := tp.Scope()
+		for _, name := range sc.Names() {
+			tn, ok := sc.Lookup(name).(*types.TypeName)
+			if !ok {
+				continue
+			}
+			named, ok := tn.Type().(*types.Named)
+			if !ok {
+				continue
+			}
+			for i := 0; i < named.NumMethods(); i++ {
+				f := eng.prog.FuncValue(named.Method(i))
+				if f == nil || f.Blocks == nil || have[f] {
+					continue
+				}
+				have[f] = true
+				k := funcKey(f)
+				eng.funcs[k] = append(eng.funcs[k], f)
+			}
+		}
+	}
 	for k := range eng.funcs {
 		fs := eng.funcs[k]
 		sort.Slice(fs, func(i, j int) bool { return fs[i].String() < fs[j].String() })
